@@ -1,0 +1,16 @@
+//go:build verif && !amd64
+// +build verif,!amd64
+
+package gf2p16
+
+func verifGetSSSE3() bool { return false }
+
+func verifSetSSSE3(v bool) bool { return false }
+
+func verifMulByteSliceLE(c T, in, out []byte, useSSSE3 bool) {
+	MulByteSliceLE(c, in, out)
+}
+
+func verifMulAndAddByteSliceLE(c T, in, out []byte, useSSSE3 bool) {
+	MulAndAddByteSliceLE(c, in, out)
+}
